@@ -1068,3 +1068,273 @@ B('k18_listing_comprehension_filter', ['C18'], 'R18.a', (META, GRI, '''def get_r
 '''))
 B('k18_listing_redacts_more_than_secrets', ['C18'], 'R18.a', (META, "        if 'secret' in key:\n            trunc_val = '[REDACTED]'", "        if 'secret' in key or not isinstance(val, str):\n            trunc_val = '[REDACTED]'"))
 B('k18_listing_only_string_values', ['C18'], 'R18.a', (META, "        ret.append({'key': key, 'value': trunc_val})\n    return ret", "        if isinstance(val, (str, bytes, int, float)):\n            ret.append({'key': key, 'value': trunc_val})\n    return ret"))
+
+
+# ---- fifth pass: the views' helpers / classes live in another module of the package and are imported back ----------------
+# (the rules follow the definitions the views reach, wherever they live; each clause is broken *inside the moved copy*)
+NEWMOD = 'clastic/contrib/__init__.py'      # an empty module of the package: stands for a new private module next to meta.py
+UTILS = 'clastic/utils.py'                  # an existing module of the package
+_IMPORT_ANCHOR = 'from .static import StaticApplication\n'
+
+TRUNC = '''def _trunc(str_val, length=70, trailer='...'):
+    if len(str_val) > length:
+        if trailer:
+            str_val = str_val[:length - len(trailer)] + trailer
+        else:
+            str_val = str_val[:length]
+    return str_val
+'''
+
+GEI = '''def get_endpoint_info(route):
+    # TODO: callable object endpoints?
+    ret = {}
+    try:
+        ret['module_name'], ret['name'] = get_callable_name(route.endpoint)
+    except AttributeError:
+        try:
+            ret['name'] = repr(route.endpoint)
+        except:
+            ret['name'] = object.__repr__(route.endpoint)
+    return ret
+'''
+
+GRDI = '''def get_render_info(route):
+    ret = {'type': None}
+    render_arg = route.render_arg
+    if route.render_factory and not callable(render_arg):
+        ret['type'] = route.render_factory.__class__.__name__
+        ret['arg'] = render_arg
+    elif render_arg is None:
+        ret['arg'] = None
+    else:
+        try:
+            ret['arg'] = render_arg.func_name
+        except AttributeError:
+            ret['arg'] = render_arg.__class__.__name__
+    return ret
+'''
+
+GRAI_FULL = '''def get_route_arg_info(route):
+    fb = get_fb(route.endpoint)
+    r_args = fb.args
+    r_defaults = fb.get_defaults_dict()
+''' + GRAI
+
+MPERI = '''class MetaPeripheral(object):
+    title = 'Clastic MetaPeripheral'
+    group_key = 'mp'
+
+    def get_general_items(self):
+        "Returns list of 2-tuples to appear in the general section table"
+        return []
+
+    def get_context(self):
+        return {}
+
+    def render_main_page_html(self, context):
+        return None
+
+    def get_extra_routes(self):
+        return []
+'''
+
+AMPERI = '''class AshesMetaPeripheral(MetaPeripheral):
+    def __init__(self):
+        arf = AshesRenderFactory(_CUR_PATH, keep_whitespace=False)
+        self.loaded_template = arf.env.load(self.template_path)
+
+    def render_main_page_html(self, context):
+        return self.loaded_template.render(context)
+'''
+
+RPERI = '''class ResourcePeripheral(AshesMetaPeripheral):
+    title = 'Application Resources'
+    group_key = 'app'
+    template_path = 'meta_resource_section.html'
+
+    def get_context(self, _application):
+        return {'resources': get_resource_info(_application)}
+'''
+
+BPERI = '''class BasicPeripheral(MetaPeripheral):
+    title = 'Basic Peripheral'
+    group_key = 'basic'
+
+    def get_context(self, _meta_application):
+        start_time = _meta_application.resources['_meta_start_time']
+        return {'abs_start_time': str(start_time),
+                'rel_start_time': relative_time(start_time)}
+
+    def get_general_items(self, context):
+        return [('Start time', (context['rel_start_time'],
+                                context['abs_start_time']))]
+'''
+
+GHI = '''def get_host_info():
+    ret = {}
+    now = datetime.datetime.utcnow()
+
+    ret['hostname'] = socket.gethostname()
+    ret['hostfqdn'] = socket.getfqdn()
+    ret['uname'] = platform.uname()
+    ret['cpu_count'] = CPU_COUNT
+    ret['platform'] = platform.platform()
+    ret['platform_terse'] = platform.platform(terse=True)
+
+    ret['load_avgs'] = glom(os, T.getloadavg(), skip_exc=AttributeError)
+
+    ret['utc_time'] = str(now)
+    return ret
+'''
+
+
+def _mv(blocks, names, target=NEWMOD, header='', moved=None, extra=()):
+    """Edits that move the text blocks out of meta.py into ``target`` (``moved``: the text they have there, default
+    verbatim) and import ``names`` back."""
+    edits = [(META, b, '') for b in blocks]
+    modname = '.contrib' if target == NEWMOD else '.utils'
+    edits.append((META, _IMPORT_ANCHOR, _IMPORT_ANCHOR + 'from %s import %s\n' % (modname, ', '.join(names))))
+    body = header + '\n\n'.join(moved if moved is not None else blocks)
+    if target == NEWMOD:
+        edits.append((target, '', '# -*- coding: utf-8 -*-\n' + body))
+    else:
+        edits.append((target, 're:\\Z', ('\n\n' + body).replace('\\', '\\\\')))
+    return edits + list(extra)
+
+
+_H_SINTER = 'from ..sinter import get_fb, get_callable_name\nfrom ..application import NullRoute, RESERVED_ARGS\n\n\n'
+_H_UT_SINTER = 'from .sinter import get_fb, get_callable_name\nfrom .application import RESERVED_ARGS\n\n\n'
+_H_PERI = ('import os\n\nfrom boltons.timeutils import relative_time\n\nfrom ..render import AshesRenderFactory\n\n'
+           '_CUR_PATH = os.path.dirname(os.path.dirname(os.path.abspath(__file__)))\n\n\n')
+
+# R18.a: the resource listing (the floor of three reads of .resources is counted over the views, not over meta.py)
+T('k18_mv_resource_info_new_module', ['C18'], *_mv([TRUNC, GRI], ['_trunc', 'get_resource_info']))
+T('k18_mv_resource_info_existing_module', ['C18'], *_mv([TRUNC, GRI], ['_trunc', 'get_resource_info'], target=UTILS))
+T('k18_mv_trunc_only', ['C18'], *_mv([TRUNC], ['_trunc']))
+B('k18_mv_trunc_only_listing_unguarded', ['C18'], 'R18.a', *_mv([TRUNC], ['_trunc'], extra=[(META, "            trunc_val = '[REDACTED]'", "            trunc_val = _trunc(str(val))")]))
+B('k18_mv_resource_info_no_test', ['C18'], 'R18.a', *_mv([TRUNC, GRI], ['_trunc', 'get_resource_info'], moved=[TRUNC, '''def get_resource_info(_application):
+    ret = []
+    for key, val in _application.resources.items():
+        ret.append({'key': key, 'value': _trunc(repr(val))})
+    return ret
+''']))
+B('k18_mv_resource_info_wrong_polarity', ['C18'], 'R18.a', *_mv([TRUNC, GRI], ['_trunc', 'get_resource_info'], target=UTILS,
+                                                               moved=[TRUNC, GRI.replace("if 'secret' in key:", "if 'secret' not in key:")]))
+B('k18_mv_resource_info_raw_value', ['C18'], 'R18.a', *_mv([TRUNC, GRI], ['_trunc', 'get_resource_info'],
+                                                         moved=[TRUNC, GRI.replace("trunc_val = _trunc(repr(val))", "trunc_val = val")]))
+B('k18_mv_resource_info_key_rebound', ['C18'], 'R18.a', *_mv([TRUNC, GRI], ['_trunc', 'get_resource_info'], target=UTILS,
+                                                           moved=[TRUNC, GRI.replace("        if 'secret' in key:", "        key = key[:3]\n        if 'secret' in key:")]))
+# R18.b: the middleware rows
+T('k18_mv_mw_infos_new_module', ['C18'], *_mv([GMI], ['get_mw_infos']))
+T('k18_mv_mw_infos_existing_module', ['C18'], *_mv([GMI], ['get_mw_infos'], target=UTILS))
+_GMI_ROW = '''def _mw_row(mw):
+    cur = {}
+    cur['type_name'] = mw.__class__.__name__
+    cur['provides'] = mw.provides
+    cur['requires'] = mw.requires
+    cur['repr'] = repr(mw)
+    return cur
+
+
+def _mw_rows(_application):
+    return [_mw_row(mw) for mw in _application.middlewares]
+'''
+_GMI_THIN = '''def get_mw_infos(_application):
+    return _mw_rows(_application)
+'''
+T('k18_mv_mw_rows_helper_other_module', ['C18'], (META, GMI, _GMI_THIN), (NEWMOD, '', _GMI_ROW),
+  (META, _IMPORT_ANCHOR, _IMPORT_ANCHOR + 'from .contrib import _mw_rows\n'))
+B('k18_mv_mw_rows_helper_reads_secret', ['C18'], 'R18.b', (META, GMI, _GMI_THIN),
+  (NEWMOD, '', _GMI_ROW.replace("    cur['repr'] = repr(mw)\n", "    cur['repr'] = repr(mw)\n    cur['key'] = mw.secret_key\n")),
+  (META, _IMPORT_ANCHOR, _IMPORT_ANCHOR + 'from .contrib import _mw_rows\n'))
+B('k18_mv_mw_infos_reads_vars', ['C18'], 'R18.b', *_mv([GMI], ['get_mw_infos'], moved=[GMI.replace("cur['repr'] = repr(mw)", "cur['repr'] = repr(vars(mw))")]))
+B('k18_mv_mw_infos_reads_secret', ['C18'], 'R18.b', *_mv([GMI], ['get_mw_infos'], target=UTILS,
+                                                        moved=[GMI.replace("cur['requires'] = mw.requires", "cur['requires'] = mw.secret_key")]))
+# R18.a / R18.f: the route listing and its helpers
+T('k18_mv_route_infos_all', ['C18'], *_mv([GRIS, GEI, GRDI, GRAI_FULL], ['get_route_infos'], header=_H_SINTER))
+T('k18_mv_route_infos_all_imported_back', ['C18'], *_mv([GRIS, GEI, GRDI, GRAI_FULL], ['get_route_infos', 'get_endpoint_info', 'get_render_info', 'get_route_arg_info'],
+                                                      header=_H_SINTER))
+T('k18_mv_route_arg_info', ['C18'], *_mv([GRAI_FULL], ['get_route_arg_info'], target=UTILS, header=_H_UT_SINTER))
+T('k18_mv_render_endpoint_info', ['C18'], *_mv([GEI, GRDI], ['get_endpoint_info', 'get_render_info'], header='from ..sinter import get_callable_name\n\n\n'))
+B('k18_mv_route_arg_info_default_value', ['C18'], 'R18.a', *_mv([GRAI_FULL], ['get_route_arg_info'], target=UTILS, header=_H_UT_SINTER,
+                                                              moved=[GRAI_FULL.replace("                source = 'default'", "                source = r_defaults[arg]")]))
+B('k18_mv_route_arg_info_resource_value', ['C18'], 'R18.a', *_mv([GRIS, GEI, GRDI, GRAI_FULL], ['get_route_infos'], header=_H_SINTER,
+                                                               moved=[GRIS, GEI, GRDI, GRAI_FULL.replace("            source = 'resources'", "            source = repr(route.resources[arg])")]))
+B('k18_mv_route_infos_stores_route', ['C18'], 'R18.a', *_mv([GRIS, GEI, GRDI, GRAI_FULL], ['get_route_infos'], header=_H_SINTER,
+                                                          moved=[GRIS.replace("        r_info['url_pattern'] = r.pattern\n", "        r_info['url_pattern'] = r.pattern\n        r_info['route'] = r\n"),
+                                                                 GEI, GRDI, GRAI_FULL]))
+B('k18_mv_endpoint_info_stores_endpoint', ['C18'], 'R18.f', *_mv([GEI, GRDI], ['get_endpoint_info', 'get_render_info'], header='from ..sinter import get_callable_name\n\n\n',
+                                                               moved=[GEI.replace("            ret['name'] = repr(route.endpoint)", "            ret['name'] = route.endpoint"), GRDI]))
+B('k18_mv_render_info_stores_class', ['C18'], 'R18.f', *_mv([GRIS, GEI, GRDI, GRAI_FULL], ['get_route_infos'], header=_H_SINTER,
+                                                           moved=[GRIS, GEI, GRDI.replace("ret['type'] = route.render_factory.__class__.__name__", "ret['type'] = route.render_factory.__class__"), GRAI_FULL]))
+# the peripherals themselves
+_PERI_NAMES = ['MetaPeripheral', 'AshesMetaPeripheral', 'ResourcePeripheral', 'BasicPeripheral', '_trunc', 'get_resource_info']
+T('k18_mv_peripherals', ['C18'], *_mv([TRUNC, GRI, MPERI, AMPERI, RPERI, BPERI], _PERI_NAMES, header=_H_PERI))
+T('k18_mv_peripheral_bases', ['C18'], *_mv([MPERI, AMPERI], ['MetaPeripheral', 'AshesMetaPeripheral'], header=_H_PERI))
+B('k18_mv_peripherals_listing_unguarded', ['C18'], 'R18.a', *_mv([TRUNC, GRI, MPERI, AMPERI, RPERI, BPERI], _PERI_NAMES, header=_H_PERI,
+                                                               moved=[TRUNC, GRI.replace("trunc_val = '[REDACTED]'", "trunc_val = _trunc(repr(val))"), MPERI, AMPERI, RPERI, BPERI]))
+B('k18_mv_peripherals_context_reads_values', ['C18'], 'R18.a', *_mv([TRUNC, GRI, MPERI, AMPERI, RPERI, BPERI], _PERI_NAMES, header=_H_PERI,
+                                                                  moved=[TRUNC, GRI, MPERI, AMPERI, RPERI.replace("{'resources': get_resource_info(_application)}",
+                                                                                                                  "{'resources': get_resource_info(_application), 'all': sorted(_application.resources.values(), key=repr)}"), BPERI]))
+B('k18_mv_peripherals_context_holds_app', ['C18'], 'R18.a', *_mv([TRUNC, GRI, MPERI, AMPERI, RPERI, BPERI], _PERI_NAMES, header=_H_PERI,
+                                                               moved=[TRUNC, GRI, MPERI, AMPERI, RPERI, BPERI.replace("        return {'abs_start_time': str(start_time),", "        return {'app': _meta_application, 'abs_start_time': str(start_time),")]))
+B('k18_mv_peripherals_wrong_template', ['C18'], 'R18.d', *_mv([TRUNC, GRI, MPERI, AMPERI, RPERI, BPERI], _PERI_NAMES, header=_H_PERI,
+                                                            moved=[TRUNC, GRI, MPERI, AMPERI, RPERI.replace("meta_resource_section.html", "resource_section_raw.html"), BPERI]))
+B('k18_mv_peripheral_bases_raw_content', ['C18'], 'R18.d', *_mv([MPERI, AMPERI], ['MetaPeripheral', 'AshesMetaPeripheral'], header=_H_PERI,
+                                                              moved=[MPERI.replace("    def render_main_page_html(self, context):\n        return None", "    def render_main_page_html(self, context):\n        return context.get('html')"), AMPERI]))
+B('k18_mv_peripheral_bases_other_template', ['C18'], 'R18.d', *_mv([MPERI, AMPERI], ['MetaPeripheral', 'AshesMetaPeripheral'], header=_H_PERI,
+                                                                 moved=[MPERI, AMPERI.replace("return self.loaded_template.render(context)", "return context.get('html') or self.loaded_template.render(context)")]))
+# a function installed as a get_context lives in another module
+_H_HOST = ('import os\nimport socket\nimport platform\nimport datetime\n\nfrom glom import glom, T\n\ntry:\n    from multiprocessing import cpu_count\n'
+           '    CPU_COUNT = cpu_count()\nexcept:\n    CPU_COUNT = None\n\n\n')
+T('k18_mv_installed_context_function', ['C18'], *_mv([GHI], ['get_host_info'], header=_H_HOST))
+B('k18_mv_installed_context_function_module', ['C18'], 'R18.f', *_mv([GHI], ['get_host_info'], header=_H_HOST,
+                                                                    moved=[GHI.replace("ret['uname'] = platform.uname()", "ret['uname'] = platform")]))
+B('k18_mv_installed_context_function_lazy', ['C18'], 'R18.f', *_mv([GHI], ['get_host_info'], header=_H_HOST,
+                                                                  moved=[GHI.replace("ret['uname'] = platform.uname()", "ret['uname'] = (x for x in platform.uname())")]))
+# R18.c: the protected peripheral call made by a helper / a mixin of another module
+_SECT_HELPER = '''from ..sinter import inject
+
+
+def _section_context(peri, kwargs):
+    try:
+        return inject(peri.get_context, kwargs)
+    except Exception as e:
+        return {'exc_content': repr(e)}
+'''
+_GMAIN_VIA_HELPER = '''        for peri in self.peripherals:
+            peri_ctx = _section_context(peri, kwargs)
+            full_ctx.setdefault(peri.group_key, {}).update(peri_ctx)
+        return full_ctx
+'''
+_IMP_SECT = (META, _IMPORT_ANCHOR, _IMPORT_ANCHOR + 'from .contrib import _section_context\n')
+T('k18_mv_section_helper_other_module', ['C18'], (META, GMAIN, _GMAIN_VIA_HELPER), (NEWMOD, '', _SECT_HELPER), _IMP_SECT)
+B('k18_mv_section_helper_reraises', ['C18'], 'R18.c', (META, GMAIN, _GMAIN_VIA_HELPER),
+  (NEWMOD, '', _SECT_HELPER.replace("        return {'exc_content': repr(e)}", "        raise RuntimeError(repr(e))")), _IMP_SECT)
+B('k18_mv_section_helper_narrow_handler', ['C18'], 'R18.c', (META, GMAIN, _GMAIN_VIA_HELPER),
+  (NEWMOD, '', _SECT_HELPER.replace("except Exception as e:", "except KeyError as e:")), _IMP_SECT)
+B('k18_mv_section_helper_indexes_exception', ['C18'], 'R18.c', (META, GMAIN, _GMAIN_VIA_HELPER),
+  (NEWMOD, '', _SECT_HELPER.replace("repr(e)}", "e.args[0]}")), _IMP_SECT)
+_GET_MAIN = '''    def get_main(self, request, _application, _route, script_root):
+        full_ctx = {'page_title': self.page_title}
+        kwargs = {'request': request,
+                  '_route': _route,
+                  '_application': _application,
+                  '_meta_application': self,
+                  'script_root': script_root}
+''' + GMAIN
+_MIXIN = 'from ..sinter import inject\n\n\nclass _MainViewMixin(object):\n' + _GET_MAIN
+_MIXIN_EDITS = ((META, _GET_MAIN + '\n', ''), (META, 'class MetaApplication(Application):', 'class MetaApplication(_MainViewMixin, Application):'),
+                (META, _IMPORT_ANCHOR, _IMPORT_ANCHOR + 'from .contrib import _MainViewMixin\n'))
+T('k18_mv_get_main_mixin_other_module', ['C18'], (NEWMOD, '', _MIXIN), *_MIXIN_EDITS)
+B('k18_mv_get_main_mixin_unprotected', ['C18'], 'R18.c', (NEWMOD, '', _MIXIN.replace(
+    "            try:\n                peri_ctx = inject(peri.get_context, kwargs)\n            except Exception as e:\n                peri_ctx = {'exc_content': repr(e)}\n",
+    "            peri_ctx = inject(peri.get_context, kwargs)\n")), *_MIXIN_EDITS)
+B('k18_mv_get_main_mixin_try_around_loop', ['C18'], 'R18.c', (NEWMOD, '', _MIXIN.replace(GMAIN, '''        try:
+            for peri in self.peripherals:
+                peri_ctx = inject(peri.get_context, kwargs)
+                full_ctx.setdefault(peri.group_key, {}).update(peri_ctx)
+        except Exception as e:
+            full_ctx['exc_content'] = repr(e)
+        return full_ctx
+''')), *_MIXIN_EDITS)
